@@ -63,65 +63,76 @@ class Recorder:
         self.after_failure = 0
         self.stopped = None
 
-    def run_case(self, case):
-        """executes one case with accounting; re-raises Violation"""
-        stage = self.stage
+    def tick(self, cost=1):
+        """budget checks; called before every case (and by state machines before every step)"""
         if self.deadline is not None and time.monotonic() > self.deadline:
             self.stopped = "wall-clock budget reached"
             raise _StopStage()
         if self.best_failure is not None:
-            self.after_failure += 1
-            if self.after_failure > stage.shrink_budget.get(self.tier, 400):
+            self.after_failure += cost
+            if self.after_failure > self.stage.shrink_budget.get(self.tier, 400):
                 self.stopped = "shrink budget reached"
                 raise _StopStage()
-        try:
-            info = stage.check(case)
-        except Violation as violation:
-            shown_case, shown_stage = case, stage.name
-            if isinstance(violation.details, dict) and "replay_case" in violation.details:
-                # bulk cases (a whole range of a finite domain) name the single failing element themselves
-                shown_case = violation.details["replay_case"]
-                shown_stage = violation.details.get("replay_stage", stage.name)
-            size = len(json.dumps(shown_case, ensure_ascii=False, default=str))
-            if self.best_failure is None or size <= self.best_failure[0]:
-                self.best_failure = (size, shown_case, violation.clause, violation.message, shown_stage)
-            raise
-        if self.best_failure is None:
-            # only the generation phase counts as coverage
-            labels, nontrivial = stage.classify(case, info)
-            for label in labels:
-                self.labels[label] += 1
-            units = info.get("_units") if isinstance(info, dict) else None
-            bulk = info.get("_bulk") if isinstance(info, dict) else None
-            if bulk is not None:
-                # a case that enumerated a whole range of pairwise different elements itself
-                self.evaluations += bulk["evaluations"]
-                self.bulk_nontrivial += bulk["nontrivial"]
-                self.labels["generated-cases"] += 1
-                for sample in bulk.get("samples", []):
-                    if len(self.samples) < 4:
-                        self.samples.append(sample)
-            elif units is not None:
-                # one generated case covers several (input, assignment/schedule/...) units
-                self.evaluations += len(units)
-                self.labels["generated-cases"] += 1
-                fresh = False
-                for unit_key, unit_nontrivial in units:
-                    if unit_nontrivial:
-                        key = sha(unit_key)[:20]
-                        if key not in self.nontrivial:
-                            self.nontrivial.add(key)
-                            fresh = True
-                if fresh and len(self.samples) < 4:
-                    self.samples.append(stage.sample(case) if stage.sample else case)
-            else:
-                self.evaluations += 1
-                if nontrivial:
-                    key = sha(stage.key(case) if stage.key else case)[:20]
+
+    def note_failure(self, case, violation):
+        shown_case, shown_stage = case, self.stage.name
+        if isinstance(violation.details, dict) and "replay_case" in violation.details:
+            # bulk cases (a whole range of a finite domain) name the single failing element themselves
+            shown_case = violation.details["replay_case"]
+            shown_stage = violation.details.get("replay_stage", self.stage.name)
+        size = len(json.dumps(shown_case, ensure_ascii=False, default=str))
+        if self.best_failure is None or size <= self.best_failure[0]:
+            self.best_failure = (size, shown_case, violation.clause, violation.message, shown_stage)
+
+    def note_success(self, case, info):
+        """accounting for a case that held; only the generation phase counts as coverage"""
+        stage = self.stage
+        if self.best_failure is not None:
+            return
+        labels, nontrivial = stage.classify(case, info)
+        for label in labels:
+            self.labels[label] += 1
+        units = info.get("_units") if isinstance(info, dict) else None
+        bulk = info.get("_bulk") if isinstance(info, dict) else None
+        if bulk is not None:
+            # a case that enumerated a whole range of pairwise different elements itself
+            self.evaluations += bulk["evaluations"]
+            self.bulk_nontrivial += bulk["nontrivial"]
+            self.labels["generated-cases"] += 1
+            for sample in bulk.get("samples", []):
+                if len(self.samples) < 4:
+                    self.samples.append(sample)
+        elif units is not None:
+            # one generated case covers several (input, assignment/schedule/...) units
+            self.evaluations += len(units)
+            self.labels["generated-cases"] += 1
+            fresh = False
+            for unit_key, unit_nontrivial in units:
+                if unit_nontrivial:
+                    key = sha(unit_key)[:20]
                     if key not in self.nontrivial:
                         self.nontrivial.add(key)
-                        if len(self.samples) < 4:
-                            self.samples.append(stage.sample(case) if stage.sample else case)
+                        fresh = True
+            if fresh and len(self.samples) < 4:
+                self.samples.append(stage.sample(case) if stage.sample else case)
+        else:
+            self.evaluations += 1
+            if nontrivial:
+                key = sha(stage.key(case) if stage.key else case)[:20]
+                if key not in self.nontrivial:
+                    self.nontrivial.add(key)
+                    if len(self.samples) < 4:
+                        self.samples.append(stage.sample(case) if stage.sample else case)
+
+    def run_case(self, case):
+        """executes one case with accounting; re-raises Violation"""
+        self.tick()
+        try:
+            info = self.stage.check(case)
+        except Violation as violation:
+            self.note_failure(case, violation)
+            raise
+        self.note_success(case, info)
         return info
 
     def take_failure(self):
